@@ -183,9 +183,28 @@ Definition step_pb (p : pool) (before after : cdump) (s : sstep) : bool :=
               let want := match implied with Some true => q_port s | _ => port end in
               existsb (fun e => Nat.eqb (fst e) ih &&
                                 existsb (fun '(rq, ip, pt) => Nat.eqb rq (q_requester s) && (ip =? q_ip s) && (pt =? want)) (snd e)) (d_peers after)
+              (* least-recently-used discipline (C20) at both levels: the info hash and, within it, the announcing peer are
+                 now the most recently used entries (also when the same peer announces again); only the least recently
+                 used info hash / peer can go *)
+              && match d_peers after with
+                 | e :: _ => Nat.eqb (fst e) ih
+                             && match snd e with (rq, _, _) :: _ => Nat.eqb rq (q_requester s) | [] => false end
+                             && evicted_is_last (fun a b : nat * N * N => Nat.eqb (fst (fst a)) (fst (fst b)))
+                                  (match find (fun x => Nat.eqb (fst x) ih) (d_peers before) with Some x => snd x | None => [] end) (snd e)
+                 | [] => false
+                 end
+              && evicted_is_last (fun a b : nat * list (nat * N * N) => Nat.eqb (fst a) (fst b)) (d_peers before) (d_peers after)
           | CSigned ih t k sig =>
               q_vok s && (abs_diff (q_sys s) t <=? 45000000)
               && existsb (fun e => Nat.eqb (fst e) ih && existsb (fun '(k', t', sg') => Nat.eqb k' k && (t' =? t) && Nat.eqb sg' sig) (snd e)) (d_speers after)
+              && match d_speers after with
+                 | e :: _ => Nat.eqb (fst e) ih
+                             && match snd e with (k', _, _) :: _ => Nat.eqb k' k | [] => false end
+                             && evicted_is_last (fun a b : nat * N * nat => Nat.eqb (fst (fst a)) (fst (fst b)))
+                                  (match find (fun x => Nat.eqb (fst x) ih) (d_speers before) with Some x => snd x | None => [] end) (snd e)
+                 | [] => false
+                 end
+              && evicted_is_last (fun a b : nat * list (nat * N * nat) => Nat.eqb (fst a) (fst b)) (d_speers before) (d_speers after)
           | CImm target v =>
               (length (pget p v) <=? 1000)%nat && validate_immutable (pget p v) (pget p target)
               && existsb (fun e => Nat.eqb (fst e) target && Nat.eqb (snd e) v) (d_imm after)
